@@ -106,6 +106,8 @@ def s_len(I, st, args, kwargs):
         if v.card is None:
             raise EngineError('len of set without cardinality ghost')
         return VInt(v.card)
+    if isinstance(v, VOpaque) and v.tag == 'PresetDict':
+        return VInt(_psym()['PD_LEN'](v.t))
     if isinstance(v, VObj):
         c = I.callee_contract(ast.Attribute(value=ast.Name(id='self', ctx=ast.Load()), attr='__len__', ctx=ast.Load()))
         if c is not None:
@@ -1263,3 +1265,91 @@ def s_npdivide(I, st, args, kwargs):
         bz = _real(b) == 0
         return VReal(z3.If(bz, z3.Real('np.inf'), _real(a) / _real(b)))
     raise EngineError('np.divide on arrays')
+
+
+# ----------------------------------------------------------------------------- opaque-string operations, preset dictionaries (C12)
+def _psym():
+    from . import sym as _sym
+    P = _sym.PSTR
+    if not hasattr(_psym, 'd'):
+        PD = z3.DeclareSort('PresetDict')
+        d = dict(P=P, PD=PD,
+                 SPLIT_COUNT=z3.Function('split_count', P, P, z3.IntSort()),
+                 SPLIT_PART=z3.Function('split_part', P, P, z3.IntSort(), P),
+                 REPLACE=z3.Function('pstr_replace', P, P, P, P),
+                 PFLOAT=z3.Function('pstr_to_float', P, z3.RealSort()),
+                 PD_HAS=z3.Function('pd_has', PD, P, z3.BoolSort()), PD_VAL=z3.Function('pd_val', PD, P, P),
+                 PD_NONEMPTY=z3.Function('pd_nonempty', PD, z3.BoolSort()), PD_LEN=z3.Function('pd_len', PD, z3.IntSort()),
+                 PD_MERGE=z3.Function('pd_merge', PD, PD, PD), PD_EMPTY=z3.Const('pd_empty', PD),
+                 VAULT_KNOWN=z3.Function('vault_known', P, z3.BoolSort()), VAULT_GET=z3.Function('vault_get', P, PD))
+        from . import speclib as sp
+        a, b = z3.Const('pd_a', PD), z3.Const('pd_b', PD)
+        k = z3.Const('pd_k', P)
+        sp.axiom('pd.empty', z3.And(z3.ForAll([k], z3.Not(d['PD_HAS'](d['PD_EMPTY'], k)), patterns=[d['PD_HAS'](d['PD_EMPTY'], k)]),
+                                    z3.Not(d['PD_NONEMPTY'](d['PD_EMPTY'])), d['PD_LEN'](d['PD_EMPTY']) == 0), 'pd_empty')
+        sp.axiom('pd.nonempty', z3.ForAll([a], z3.And(
+            d['PD_LEN'](a) >= 0, (d['PD_LEN'](a) == 0) == z3.Not(d['PD_NONEMPTY'](a)),
+            z3.Implies(z3.Not(d['PD_NONEMPTY'](a)), z3.ForAll([k], z3.Not(d['PD_HAS'](a, k)), patterns=[d['PD_HAS'](a, k)]))),
+            patterns=[d['PD_NONEMPTY'](a)]), 'pd_nonempty')
+        sp.axiom('pd.len', z3.ForAll([a], z3.And(d['PD_LEN'](a) >= 0, (d['PD_LEN'](a) == 0) == z3.Not(d['PD_NONEMPTY'](a))),
+                                     patterns=[d['PD_LEN'](a)]), 'pd_len')
+        m = d['PD_MERGE'](a, b)
+        sp.axiom('pd.merge', z3.ForAll([a, b, k], z3.And(
+            d['PD_HAS'](m, k) == z3.Or(d['PD_HAS'](a, k), d['PD_HAS'](b, k)),
+            d['PD_VAL'](m, k) == z3.If(d['PD_HAS'](b, k), d['PD_VAL'](b, k), d['PD_VAL'](a, k))),
+            patterns=[d['PD_HAS'](m, k), d['PD_VAL'](m, k)]), 'pd_merge')
+        sp.axiom('pd.merge_nonempty', z3.ForAll([a, b], d['PD_NONEMPTY'](m) == z3.Or(d['PD_NONEMPTY'](a), d['PD_NONEMPTY'](b)),
+                                                patterns=[m]), 'pd_merge')
+        sp.axiom('pd.has_nonempty', z3.ForAll([a, k], z3.Implies(d['PD_HAS'](a, k), d['PD_NONEMPTY'](a)),
+                                              patterns=[d['PD_HAS'](a, k)]), 'pd_has')
+        _psym.d = d
+    return _psym.d
+
+
+def m_pstr_split(I, st, s, sep=None, *a):
+    if not s.opaque:
+        raise EngineError('str.split on a theory string: use strings="opaque" or a stub law')
+    d = _psym()
+    sp = sep.t if sep is not None else VStr(' ').t
+    n = d['SPLIT_COUNT'](s.t, sp)
+    I.assume(st, n >= 1)
+    i = z3.Int(fresh_name('i'))
+    return VSeq('pstr', n, z3.Lambda([i], d['SPLIT_PART'](s.t, sp, i)), flavor='list')
+
+
+def m_pstr_replace(I, st, s, a, b):
+    if not s.opaque:
+        raise EngineError('str.replace on a theory string')
+    return VStr(_psym()['REPLACE'](s.t, a.t, b.t))
+
+
+_METHODS[(VStr, 'split')] = m_pstr_split
+_METHODS[(VStr, 'replace')] = m_pstr_replace
+_METHODS[(VSeq, 'tolist')] = lambda I, st, s: VSeq(s.ek, s.length, s.arr, flavor='list')
+_float_plain = _FUNCS['float']
+
+
+def _float_any(I, st, args, kwargs):
+    v = args[0]
+    if isinstance(v, VStr) and v.opaque:
+        return VReal(_psym()['PFLOAT'](v.t))
+    return _float_plain(I, st, args, kwargs)
+
+
+_FUNCS['float'] = _float_any
+
+
+@stub('numpy.array')
+def s_nparray(I, st, args, kwargs):
+    v = args[0]
+    if isinstance(v, VSeq):
+        return VSeq(v.ek, v.length, v.arr, flavor='array', dtype='float64' if v.ek == 'real' else None)
+    raise EngineError('np.array of non-sequence')
+
+
+@stub('transformer_vault._tr_global_namespace.get')
+def s_vault_get(I, st, args, kwargs):
+    """the preset table of the transformer vault: name -> dictionary (None for an unknown name); contents opaque."""
+    d = _psym()
+    ns = args[0]
+    return VOpt(z3.Not(d['VAULT_KNOWN'](ns.t)), VOpaque('PresetDict', d['VAULT_GET'](ns.t)))
